@@ -15,7 +15,7 @@ import os
 import re
 
 from vlib.hostlist import (HL, Cli, WFGen, LIMIT, hx, unhx, parse_probe, parse_spec, same_answer, feat_big,
-                           feat_longplain, feat_first_group_complete, feat_d16, gen_malformed, exhaustive,
+                           feat_longplain, feat_first_group_complete, feat_d16, gen_malformed, exhaustive, names_field,
                            VERIF_CORPUS)
 
 LEVEL = "proof"
@@ -106,6 +106,8 @@ def judge(ctx, s, sp, impl, model, origin):
 
 def run(ctx):
     rng = ctx.rng
+    if ctx.replay and "expr_hex" not in json.load(open(ctx.replay)).get("case", {}):
+        ctx.replay = None       # a theorem/correspondence replay names no input: the whole check is the replay
     ctx.gen_consts(["hostlist"])
     ctx.lean_build([PROPS, "pdshmodel"])
     ctx.audit(PROPS)
@@ -217,6 +219,13 @@ def cli_check(ctx, hl, dist, cov, only=None):
             nslow += 1
             if nslow > 2:
                 continue      # every further predicted hang costs a full wall-clock timeout
+        if m.startswith("ok | "):
+            listed = names_field(m.split(" | ")[2])[2]
+            if sum(len(x) + 1 for x in listed) > 900:
+                # -Q prints through hostlist_deranged_string into a 1024-byte buffer: long lists are the
+                # business of C14 (its overflow, D14, can crash opt_list)
+                dist["cli-skipped-long-list"] = dist.get("cli-skipped-long-list", 0) + 1
+                continue
         cls, hosts, trunc = cli.query(s.decode("latin1"), timeout=6)
         case["pdsh"] = cls
         if m.startswith("ok | "):
